@@ -338,22 +338,29 @@ theorem min1_of_le_one {x : Rat} (h : x ≤ 1) : (Scalar.min1 x : Rat) = x := by
 
 theorem sfLoop_succ (n : Nat) (st : SfState Rat) : sfLoop (n + 1) st = sfLoop n (sfStep n st) := rfl
 
+/-- `max_score` bookkeeping: either still 0 with no tail mass at the indices seen so far (those
+    above `n`), or the greatest index with a positive tail -/
+def MaxInv (G : Nat → Rat) (size n : Nat) (mx : Int) : Prop :=
+  (mx = 0 ∧ ∀ k : Nat, n < k → k < size → G k = 0) ∨
+  (0 < G mx.toNat ∧ (n : Int) < mx ∧ ∀ k : Nat, mx < (k : Int) → k < size → G k = 0)
+
 /-- The loop `for i in (0..=len-2).rev()` turns a density `p` (non-negative, total mass ≤ 1) into its
     tail sums `G`, keeps `min_score` at or below every index carrying mass, and keeps both scores
     inside the table. -/
 theorem sfLoop_spec (p G : Nat → Rat) (size : Nat)
-    (hp : ∀ j, 0 ≤ p j) (hG : ∀ j, G j = p j + G (j + 1)) (hG1 : ∀ j, G j ≤ 1) :
+    (hp : ∀ j, 0 ≤ p j) (hG : ∀ j, G j = p j + G (j + 1)) (hG1 : ∀ j, G j ≤ 1) (hG0 : ∀ j, 0 ≤ G j) :
     ∀ (n : Nat) (st : SfState Rat), st.sf.size = size → n + 1 ≤ size →
       (∀ j, n ≤ j → j < size → vget st.sf j = G j) →
       (∀ j, j < n → vget st.sf j = p j) →
       (0 ≤ st.minScore ∧ st.minScore + 1 < size ∧
         ∀ j : Nat, n ≤ j → (j : Int) < st.minScore → p j = 0) →
-      (0 ≤ st.maxScore ∧ st.maxScore < size) →
+      (0 ≤ st.maxScore ∧ st.maxScore < size ∧ MaxInv G size n st.maxScore) →
       (sfLoop n st).sf.size = size ∧
       (∀ j, j < size → vget (sfLoop n st).sf j = G j) ∧
       (0 ≤ (sfLoop n st).minScore ∧ (sfLoop n st).minScore + 1 < size ∧
         ∀ j : Nat, (j : Int) < (sfLoop n st).minScore → p j = 0) ∧
-      (0 ≤ (sfLoop n st).maxScore ∧ (sfLoop n st).maxScore < size) := by
+      (0 ≤ (sfLoop n st).maxScore ∧ (sfLoop n st).maxScore < size ∧
+        MaxInv G size 0 (sfLoop n st).maxScore) := by
   intro n
   induction n with
   | zero =>
@@ -403,10 +410,30 @@ theorem sfLoop_spec (p G : Nat → Rat) (size : Nat)
     · have hmx : (sfStep n st).maxScore =
           if st.maxScore = 0 ∧ Scalar.ltb Scalar.zero (vget st.sf (n + 1)) = true
           then (n : Int) + 1 else st.maxScore := rfl
-      rw [hmx]
-      split
-      · refine ⟨by omega, by omega⟩
-      · exact hmax
+      rw [hmx, hp1, ltb_rat, zero_rat]
+      obtain ⟨hmx0, hmx1, hinv⟩ := hmax
+      by_cases hc : st.maxScore = 0 ∧ decide (0 < G (n + 1)) = true
+      · rw [if_pos hc]
+        have hpos : 0 < G (n + 1) := by simpa using hc.2
+        refine ⟨by omega, by omega, Or.inr ⟨?_, by omega, ?_⟩⟩
+        · have : ((n : Int) + 1).toNat = n + 1 := by omega
+          rw [this]; exact hpos
+        · intro k hk hks
+          rcases hinv with ⟨_, hz⟩ | ⟨_, hlt, _⟩
+          · exact hz k (by omega) hks
+          · omega
+      · rw [if_neg hc]
+        refine ⟨hmx0, hmx1, ?_⟩
+        rcases hinv with ⟨hz0, hz⟩ | ⟨hpos, hlt, hz⟩
+        · left
+          refine ⟨hz0, fun k hk hks => ?_⟩
+          by_cases hkn : k = n + 1
+          · subst hkn
+            have : ¬ 0 < G (n + 1) := fun h => hc ⟨hz0, by simpa using h⟩
+            linarith [hG0 (n + 1), not_lt.mp this]
+          · exact hz k (by omega) hks
+        · right
+          exact ⟨hpos, by omega, hz⟩
 
 /-! ### rounding -/
 
